@@ -4,6 +4,7 @@ package main
 
 import (
 	"fmt"
+	"strings"
 
 	"github.com/makiuchi-d/gozxing"
 	"github.com/makiuchi-d/gozxing/datamatrix"
@@ -238,6 +239,124 @@ func c13DMBinary(r *fw.Rec, n, shape int) bool {
 	return true
 }
 
+// c13Classes: alphabets that steer the look-ahead into one encodation each.
+var c13Classes = []struct{ name, alpha string }{
+	{"x12", "ABCDEFGHIJKLMNOPQRSTUVWXYZ0123456789 *>\r"},
+	{"x12-few-terminators", "ABCDEFGHIJKLMNOPQRSTUVWXYZ0123456789*"},
+	{"edifact", "ABCDEFGHIJKLMNOPQRSTUVWXYZ !\"#$%&'()+,-./:;<=?@[\\]^"},
+	{"edifact-punct", "^@[]?!#$%&"},
+	{"c40", "ABCDEFGHIJKLMNOPQRSTUVWXYZ 0123456789"},
+	{"text", "abcdefghijklmnopqrstuvwxyz 0123456789"},
+	{"mixed", "ABCabc012 *>^,.-"},
+}
+
+// c13DMContent: content of one character class (optionally inside a 05/06 macro envelope),
+// every length, through the library's encodation.  Whatever encodation it chooses, the symbol
+// must be the smallest admissible one that holds the content: if the library's own codeword
+// stream, with end-of-data codewords that the standard makes unnecessary at the end of a symbol
+// removed (candidates: the last 0..3 codewords dropped, or the one before the last dropped),
+// fills a smaller admissible symbol exactly and the independent ISO 16022 decoder reads the
+// same message from it, the content fits that smaller symbol.
+func c13DMContent(r *fw.Rec, text string, shape int, class string) bool {
+	var hl []byte
+	var err error
+	msg, stack, panicked := fw.Guard(func() { hl, err = dmenc.EncodeHighLevel(text, dmShape(shape), nil, nil) })
+	r.Evals(1)
+	info := map[string]interface{}{"text": text, "class": class, "shape": dmShapeName[shape]}
+	if panicked {
+		r.Violation("panic", "dm.encode:panic:"+fw.PanicSite(stack), fmt.Sprintf("EncodeHighLevel(%q) panicked: %s", trunc(text, 80), msg), info)
+		return false
+	}
+	if err != nil {
+		r.Tally("dm_content_refused")
+		return true
+	}
+	capS := len(hl)
+	chosen, ok := dmref.Lookup(capS, shape, 0, 0, 0, 0)
+	if !ok || chosen.DataCW != capS {
+		r.Violation("model-mismatch", "dm.content:stream-length-is-no-symbol-capacity", fmt.Sprintf("EncodeHighLevel(%q, %s) returned %d codewords, which is not the capacity of an admissible symbol", trunc(text, 80), dmShapeName[shape], capS), info)
+		return false
+	}
+	full, derr := dmref.DecodeCodewords(hl)
+	if derr != nil || full != text {
+		// C02's business; here only streams the reference reads back are judged
+		r.Tally("dm_content_stream_not_read_back_by_reference")
+		return true
+	}
+	// unpadded length: the shortest prefix whose standard padding reproduces the stream
+	p := capS
+	for q := capS - 1; q >= 1; q-- {
+		if string(dmref.PadTo(hl[:q], capS)) == string(hl) {
+			p = q
+		}
+	}
+	info["codewords"], info["unpadded"], info["symbol"] = capS, p, fmt.Sprintf("%dx%d", chosen.Rows, chosen.Cols)
+	// (1) the symbol is the first admissible one for the library's own codeword count
+	for _, small := range dmref.Symbols() {
+		if small.DataCW >= capS || small.DataCW < p || (shape == 1 && small.Rect) || (shape == 2 && !small.Rect) {
+			continue
+		}
+		if got, e := dmref.DecodeCodewords(dmref.PadTo(hl[:p], small.DataCW)); e == nil && got == text {
+			info["smaller_symbol"] = fmt.Sprintf("%dx%d", small.Rows, small.Cols)
+			r.Violation("model-mismatch", "dm.content:not-first-admissible-for-own-codewords:"+class, fmt.Sprintf("%q (%s) is encoded into %dx%d (%d codewords) although only %d are used before padding %v: %dx%d (%d) holds them and reads back the same", trunc(text, 60), dmShapeName[shape], chosen.Rows, chosen.Cols, capS, p, hl[:p], small.Rows, small.Cols, small.DataCW), info)
+			return false
+		}
+	}
+	// (2) ISO 16022 5.2.5.2 / 5.2.7.2: when one character remains at the end of a C40 / Text /
+	// X12 run and one codeword remains in the symbol, the character is ASCII encoded WITHOUT an
+	// unlatch.  Charged only where the standard says so and nothing else interferes: no macro
+	// envelope, the stream ends "unlatch, one ASCII codeword", the last character belongs to
+	// the basic set of the run that was unlatched (so the run was not left for its sake), and
+	// without the unlatch the stream fills a smaller admissible symbol exactly.
+	if !strings.HasPrefix(text, "[)>\x1e") && p >= 3 && len(text) > 0 {
+		last := text[len(text)-1]
+		if _, at, mode, e := dmref.DecodeCodewordsInfo(hl[:p]); e == nil && at == p-2 && hl[p-1] == last+1 && last < 128 {
+			native := last == ' ' || (last >= '0' && last <= '9')
+			switch mode {
+			case dmref.ModeC40:
+				native = native || (last >= 'A' && last <= 'Z')
+			case dmref.ModeText:
+				native = native || (last >= 'a' && last <= 'z')
+			case dmref.ModeX12:
+				native = native || (last >= 'A' && last <= 'Z') || last == '\r' || last == '*' || last == '>'
+			}
+			cand := append(append([]byte{}, hl[:p-2]...), hl[p-1])
+			if small, ok := dmref.Lookup(len(cand), shape, 0, 0, 0, 0); native && ok && small.DataCW == len(cand) && small.DataCW < capS {
+				if got, e := dmref.DecodeCodewords(cand); e == nil && got == text {
+					info["smaller_symbol"] = fmt.Sprintf("%dx%d", small.Rows, small.Cols)
+					r.Violation("model-mismatch", "dm.content:unlatch-before-the-last-character-at-the-end-of-a-symbol:"+class, fmt.Sprintf("%q (%s) ends ... %v (unlatch, then the last character in ASCII) and takes %dx%d; one character and one codeword remained in %dx%d, where the standard encodes it in ASCII without the unlatch", trunc(text, 60), dmShapeName[shape], hl[maxInt(0, p-5):p], chosen.Rows, chosen.Cols, small.Rows, small.Cols), info)
+					return false
+				}
+			}
+			r.Tally("dm_content_streams_ending_unlatch_then_one_ascii_codeword")
+		}
+	}
+	// (3) measured, not charged: end-of-data codewords the standard makes unnecessary at the
+	// end of a symbol (upstream's look-ahead does not always exploit them)
+	var cands [][]byte
+	for k := 1; k <= 3 && p-k >= 1; k++ {
+		cands = append(cands, append([]byte{}, hl[:p-k]...))
+	}
+	if p >= 3 {
+		cands = append(cands, append(append([]byte{}, hl[:p-2]...), hl[p-1]))
+	}
+	for _, cand := range cands {
+		small, ok := dmref.Lookup(len(cand), shape, 0, 0, 0, 0)
+		if !ok || small.DataCW != len(cand) || small.DataCW >= capS {
+			continue
+		}
+		if got, e := dmref.DecodeCodewords(cand); e == nil && got == text {
+			r.Tally("dm_content_smaller_symbol_possible_with_implied_unlatch_not_charged")
+			break
+		}
+	}
+	r.Tally("dm_content_no_smaller_symbol_holds_the_stream")
+	if p == capS {
+		r.Tally("dm_content_symbol_exactly_full")
+	}
+	return true
+}
+
 func c13(c *fw.Ctx) {
 	c.Rule("QR: for every (mode, level, version) the lengths cap(v) and cap(v)+1 with automatic version, and forced versions v (exact), v-1 (refused) and v+1 (honoured); the same boundaries for numeric / alphanumeric content under a CHARACTER_SET hint (which must not cost capacity); thorough: every length 1..cap(40)+1 for all 16 (mode, level) pairs; observed through Encoder_encode's version and through the writer's 0x0 output dimension; expected version from qrref capacities (ISO 18004 tables). Data Matrix: every codeword count 1..1559 x 3 shapes through SymbolInfo_Lookup and (as digit strings) through the writer's 0x0 output size, and (min, max) dimension pairs drawn from the 30 sizes (+-1), compared with dmref's Table 7 in capacity order; distinct = distinct (kind, mode/shape, level, length, hints)")
 	c.Assume("payloads select their mode unambiguously (digits / 45-set with a letter / UTF-8 with a lower-case letter / Shift_JIS double-byte with the Shift_JIS hint); the mask is forced to skip the penalty search")
@@ -382,6 +501,33 @@ func c13(c *fw.Ctx) {
 			})
 		}
 	}
+	// --- Data Matrix: content of every encodation class and length
+	nrep := c.Pick(3, 40)
+	for ci := range c13Classes {
+		for macro := 0; macro < 3; macro++ {
+			ci, macro := ci, macro
+			c.Run(fmt.Sprintf("dm/content/%s/%d", c13Classes[ci].name, macro), func(r *fw.Rec) {
+				cl := c13Classes[ci]
+				for n := 1; n <= 90; n++ {
+					for rep := 0; rep < nrep; rep++ {
+						b := make([]byte, n)
+						for i := range b {
+							b[i] = cl.alpha[r.Rng.Intn(len(cl.alpha))]
+						}
+						text := string(b)
+						if macro > 0 {
+							text = fmt.Sprintf("[)>\x1e%02d\x1d", 4+macro) + text + "\x1e\x04"
+						}
+						shape := r.Rng.Intn(3)
+						if !c13DMContent(r, text, shape, cl.name) {
+							return
+						}
+						r.NontrivialH(hash64s("dmc"+text) ^ uint64(shape))
+					}
+				}
+			})
+		}
+	}
 	// --- Data Matrix: (min, max) pairs from the size list
 	syms := dmref.Symbols()
 	npairs := 0
@@ -445,6 +591,8 @@ func c13(c *fw.Ctx) {
 	c.Floor("dm_writer_symbol_as_expected", 300)
 	c.Floor("dm_writer_refused_as_expected", 10)
 	c.Floor("dm_binary_symbol_as_expected", 200)
+	c.Floor("dm_content_no_smaller_symbol_holds_the_stream", 4000)
+	c.Floor("dm_content_symbol_exactly_full", 300)
 	c.Floor("dm_binary_exact_fill", 20)
 	c.Floor("dm_binary_refused_as_expected", 3)
 	c.Floor("published_figures_confirmed", 1)
